@@ -312,7 +312,7 @@ theorem addRegion_ok' {s s' : State} {region : Feat} (h : addRegion s region = .
       exact ⟨index, hidx, by omega, rfl, rfl, rfl, rfl, rfl, rfl, rfl⟩
 
 theorem mkAddRegion_sorted {s s1 s2 : State} {cands subs : List Feat} {r : Feat} (hl : LineSorted s)
-    (hc : ∀ f ∈ cands, f ∈ s.cands) (hs : ∀ f ∈ subs, f ∈ s.subs)
+    (hc : ∀ f ∈ cands, f ∈ s.cands ++ s.pool) (hs : ∀ f ∈ subs, f ∈ s.subs)
     (hmk : mkRegion s cands subs = .ok (s1, r)) (hadd : addRegion s1 r = .ok s2) : LineSorted s2 := by
   have hne : subs ++ cands ≠ [] := by
     intro he
@@ -326,7 +326,9 @@ theorem mkAddRegion_sorted {s s1 s2 : State} {cands subs : List Feat} {r : Feat}
     rw [mem5]
     rcases List.mem_append.1 hf with h | h
     · exact Or.inr (Or.inr (Or.inl (hs f h)))
-    · exact Or.inr (Or.inl (hc f h))
+    · rcases List.mem_append.1 (hc f h) with h' | h'
+      · exact Or.inr (Or.inl h')
+      · exact Or.inr (Or.inr (Or.inr (Or.inl h')))
   have hmk' := mkRegion_line (len := s.len) s cands subs hne hch
   rw [hmk'] at hmk
   simp only [Except.ok.injEq, Prod.mk.injEq] at hmk
@@ -356,7 +358,7 @@ theorem mkAddRegion_sorted {s s1 s2 : State} {cands subs : List Feat} {r : Feat}
     · intro j y hj hy; exact h2 j y (by omega) hy
 
 theorem addSections_sorted {s s' : State} {secs : List Sec} (hi : Inv s) (hl : LineSorted s)
-    (hsub : ∀ sec ∈ secs, ∀ a ∈ sec.2, a ∈ s.cands ++ s.subs)
+    (hsub : ∀ sec ∈ secs, ∀ a ∈ sec.2, a ∈ s.cands ++ s.pool ++ s.subs)
     (h : addSections s secs = .ok s') : LineSorted s' := by
   induction secs generalizing s with
   | nil =>
@@ -375,7 +377,7 @@ theorem addSections_sorted {s s' : State} {secs : List Sec} (hi : Inv s) (hl : L
       · cases h
       · next s2 hadd =>
         have hin := hsub (l, areas) (by simp)
-        have hc : ∀ f ∈ areas.filter (·.kind == .cand), f ∈ s.cands := by
+        have hc : ∀ f ∈ areas.filter (·.kind == .cand), f ∈ s.cands ++ s.pool := by
           intro f hf
           obtain ⟨hfa, hk⟩ := List.mem_filter.1 hf
           rcases List.mem_append.1 (hin f hfa) with h1 | h1
@@ -386,18 +388,22 @@ theorem addSections_sorted {s s' : State} {secs : List Sec} (hi : Inv s) (hl : L
           intro f hf
           obtain ⟨hfa, hk⟩ := List.mem_filter.1 hf
           rcases List.mem_append.1 (hin f hfa) with h1 | h1
-          · have := hi.kindC f h1
-            simp [this] at hk
+          · rcases List.mem_append.1 h1 with h2 | h2
+            · have := hi.kindC f h2
+              simp [this] at hk
+            · have := hi.kindPool f h2
+              simp [this] at hk
           · exact h1
         obtain ⟨hi2, hsame⟩ := mkAddRegion_inv hi hc hs hmk hadd
         exact ih hi2 (mkAddRegion_sorted hl hc hs hmk hadd) (by
           intro sec hsec a ha
-          rw [hsame.2.1, hsame.2.2.1]
+          rw [hsame.2.1, hsame.2.2.1, hsame.2.2.2.1]
           exact hsub sec (by simp [hsec]) a ha) h
 
-theorem createRegions_sorted {s s' : State} (hi : Inv s) (hl : LineSorted s) (h : createRegions s = .ok s') :
-    LineSorted s' := by
-  simp only [createRegions] at h
+theorem createRegionsOf_sorted {s s' : State} {cands subs : List Feat} (hi : Inv s) (hl : LineSorted s)
+    (hc : ∀ f ∈ cands, f ∈ s.cands ++ s.pool) (hs : ∀ f ∈ subs, f ∈ s.subs) (hnd : (ids (cands ++ subs)).Nodup)
+    (h : createRegionsOf s cands subs = .ok s') : LineSorted s' := by
+  simp only [createRegionsOf] at h
   split at h
   · simp only [pure, Except.pure, Except.ok.injEq] at h
     subst h; exact hl
@@ -405,12 +411,17 @@ theorem createRegions_sorted {s s' : State} (hi : Inv s) (hl : LineSorted s) (h 
     split at h
     · cases h
     · next secs hsecs =>
-      have hp := sections_perm (nodup_areas hi) hsecs
+      have hp := sectionsOf_perm hnd hsecs
       apply addSections_sorted hi hl _ h
       intro sec hsec a ha
-      exact hp.mem_iff.1 (List.mem_flatten.2 ⟨sec.2, List.mem_map.2 ⟨sec, hsec, rfl⟩, ha⟩)
+      have := hp.mem_iff.1 (List.mem_flatten.2 ⟨sec.2, List.mem_map.2 ⟨sec, hsec, rfl⟩, ha⟩)
+      rcases List.mem_append.1 this with h1 | h1
+      · exact List.mem_append.2 (Or.inl (hc a h1))
+      · exact List.mem_append.2 (Or.inr (hs a h1))
 
-
+theorem createRegions_sorted {s s' : State} (hi : Inv s) (hl : LineSorted s) (h : createRegions s = .ok s') :
+    LineSorted s' :=
+  createRegionsOf_sorted hi hl (fun f hf => List.mem_append.2 (Or.inl hf)) (fun f hf => hf) (nodup_areas hi) h
 
 theorem mkCand_loc {s s1 : State} {pids : List Nat} {c : Feat} (h : mkCand s pids = .ok (s1, c)) :
     ∃ ps, (∀ p ∈ ps, p ∈ s.protos) ∧ ps ≠ [] ∧ connect (ps.map (·.loc)) s.wrap = .ok c.loc ∧
@@ -641,8 +652,25 @@ theorem step_sorted {s s' : State} (op : Op) (hi : Inv s) (hl : LineSorted s) (h
         · cases h
         · next v hmk =>
           obtain ⟨s1, r⟩ := v
-          have := mkAddRegion_sorted hl (findAll_ok hc).2 (findAll_ok hs).2 hmk h
-          exact ⟨this, (mkAddRegion_inv hi (findAll_ok hc).2 (findAll_ok hs).2 hmk h).2.2.2.2.2.1⟩
+          have hc' : ∀ f ∈ cands, f ∈ s.cands ++ s.pool := fun f hf => List.mem_append.2 (Or.inl ((findAll_ok hc).2 f hf))
+          have := mkAddRegion_sorted hl hc' (findAll_ok hs).2 hmk h
+          exact ⟨this, (mkAddRegion_inv hi hc' (findAll_ok hs).2 hmk h).2.2.2.2.2.1⟩
+  | createRegionsWith cs ss =>
+    have hinv := step_createRegionsWith_inv hi h
+    simp only [step, bind, Except.bind] at h
+    split at h
+    · cases h
+    · next cands hc =>
+      split at h
+      · cases h
+      · next subs hs =>
+        split at h
+        · cases h
+        · next hnd =>
+          refine ⟨createRegionsOf_sorted hi hl (findAll_ok hc).2 (findAll_ok hs).2 ?_ h, hinv.2.2.2.2.2.1⟩
+          have : ((cs ++ ss).Nodup) := by simpa using hnd
+          rw [ids_append, (findAll_ok hc).1, (findAll_ok hs).1]
+          exact this
   | clearRegions =>
     simp only [step, pure, Except.pure, Except.ok.injEq] at h
     subst h
